@@ -65,6 +65,8 @@ type Obs struct {
 	// 1 .docs descriptor open, 2 .meta, 4 .sdocs, 8 .index (from /proc/self/fd); 16 .docs exists, 32 .meta, 64 .sdocs,
 	// 128 .index (stat); 256 the installed sealed fraction reads the ACTIVE fraction's descriptor, 512 its own on .sdocs
 	Files []int `json:"files,omitempty"`
+	// Sealed.BlocksOffsets of every fraction whose sealed form is installed (nil otherwise), as in memory after the step
+	Offs [][]uint64 `json:"offs,omitempty"`
 }
 
 // Opts are the non-default fraction options (frac.Config) of a schedule; nil = default configuration, no file
@@ -72,6 +74,9 @@ type Obs struct {
 type Opts struct {
 	SkipSortDocs bool `json:"skip_sort_docs"`
 	KeepMetaFile bool `json:"keep_meta_file"`
+	// SealParams.DocBlockSize of the store (0 = default 4 MiB: one block of sorted docs per fraction); a small value
+	// gives every sealed fraction several blocks, so that its block-offset table matters
+	DocBlockSize int `json:"doc_block_size,omitempty"`
 }
 
 type Input struct {
@@ -166,6 +171,7 @@ func NewExec(in *Input) (*Exec, error) {
 		if in.Opts != nil {
 			c.Fraction.SkipSortDocs = in.Opts.SkipSortDocs
 			c.Fraction.KeepMetaFile = in.Opts.KeepMetaFile
+			c.SealParams.DocBlockSize = in.Opts.DocBlockSize
 		}
 	})
 	if err != nil {
@@ -212,14 +218,26 @@ func (e *Exec) wait() (event, bool) {
 
 func tokName(t int) string { return string(rune('a' + t - 1)) }
 
-func bodyOf(n int) []byte { return []byte(fmt.Sprintf(`{"n":%d}`, n)) }
+// bodyOf: 70-130 bytes of hardly compressible filler whose length and content depend on n, so that with a small
+// DocBlockSize every document is a block of its own, the (compressed) blocks have different lengths - block starts
+// differ from fraction to fraction - and a read at a foreign block offset never yields the expected bytes
+func bodyOf(n int) []byte {
+	x := uint64(n)*0x9E3779B97F4A7C15 + 0x1234567
+	k := 50 + int(x>>7)%60
+	pad := make([]byte, k)
+	for i := range pad {
+		x = x*6364136223846793005 + 1442695040888963407
+		pad[i] = "0123456789abcdefghijklmnopqrstuvwxyzABCDEFGHIJKLMNOPQRSTUVWXYZ-_"[x>>58]
+	}
+	return []byte(fmt.Sprintf(`{"n":%d,"p":"%s"}`, n, pad))
+}
 
 func bodyNum(b []byte) int {
 	if len(b) == 0 {
 		return -1
 	}
 	var n int
-	if _, err := fmt.Sscanf(string(b), `{"n":%d}`, &n); err != nil || string(bodyOf(n)) != string(b) {
+	if _, err := fmt.Sscanf(string(b), `{"n":%d,`, &n); err != nil || string(bodyOf(n)) != string(b) {
 		return -2
 	}
 	return n
@@ -300,6 +318,7 @@ func (e *Exec) Step(l Label) Obs {
 	o := e.step0(l)
 	if e.in.Opts != nil && !e.hang {
 		o.Files = e.fileObs()
+		o.Offs = e.offsObs()
 	}
 	return o
 }
@@ -430,6 +449,8 @@ func (e *Exec) StepPair(a, b int) (Obs, Obs) {
 	if e.in.Opts != nil && !e.hang { // reader steps do not touch files: both observations carry the same state
 		oa.Files = e.fileObs()
 		ob.Files = oa.Files
+		oa.Offs = e.offsObs()
+		ob.Offs = oa.Offs
 	}
 	return oa, ob
 }
@@ -663,6 +684,8 @@ func (e *Exec) StepFetchDuringRelease(l Label, g int) (Obs, Obs) {
 	if e.in.Opts != nil && !e.hang {
 		of.Files = before // a fetch does not touch files: the state the model has after [FB]
 		om.Files = e.fileObs()
+		om.Offs = e.offsObs()
+		of.Offs = om.Offs // neither step builds a sealed fraction
 	}
 	return of, om
 }
@@ -722,6 +745,17 @@ func (e *Exec) fileObs() []int {
 			}
 		}
 		out = append(out, m)
+	}
+	return out
+}
+
+// offsObs copies Sealed.BlocksOffsets of every installed sealed fraction (fileObs has captured the objects).
+func (e *Exec) offsObs() [][]uint64 {
+	out := make([][]uint64, len(e.sealeds))
+	for g, s := range e.sealeds {
+		if s != nil {
+			out[g] = append([]uint64{}, s.BlocksOffsets...)
+		}
 	}
 	return out
 }
